@@ -269,3 +269,26 @@ package kv
 //@   modifies *
 //@   ensures[pending_outputs_are_collected_before_the_active_versions_are_read] calls(f.familyVersion.GetAllActiveFiles) != old(calls(f.familyVersion.GetAllActiveFiles)) ==> f.pendingOutputs.rangedAt < f.familyVersion.activeReadAt
 //@ end
+
+//@ # ---- family registration (C02): one family instance per name. The lookup of CreateFamily runs under the read lock,
+//@ # the creation under the write lock: the creating section must not rely on the lookup - a family that is registered
+//@ # by then is returned, nothing is built and the registration stays as it is (a second instance would not see the
+//@ # pending outputs of the first one and delete the files it is writing) ------------------------------------------
+//@ extern func github.com/lindb/common/pkg/fileutil.Exist
+//@   modifies nothing
+//@ end
+//@ func store.dumpStoreInfo
+//@   assume
+//@   modifies nothing
+//@ end
+//@ func newFamilyFunc
+//@   modifies nothing
+//@   fresh
+//@ end
+//@ func store.createFamily
+//@   prop C02
+//@   requires s.families != nil && s.storeInfo != nil && s.storeInfo.Families != nil
+//@   modifies *
+//@   ensures[a_registered_family_is_returned_and_never_replaced] old(has(s.families, familyName)) ==> (err == nil && family == old(s.families[familyName]) && calls(newFamilyFunc) == old(calls(newFamilyFunc)) && all(k, "string", has(s.families, k) == old(has(s.families, k)) && s.families[k] == old(s.families[k])))
+//@   ensures[a_new_family_is_registered_under_its_name_only] (!old(has(s.families, familyName)) && err == nil) ==> (has(s.families, familyName) && s.families[familyName] == family && all(k, "string", k != familyName ==> (has(s.families, k) == old(has(s.families, k)) && s.families[k] == old(s.families[k]))))
+//@ end
